@@ -235,7 +235,12 @@ fn generate(tier: &str, seed: u64, emit: &mut dyn FnMut(Case)) {
         }
         if meta_mount && ccfgs.is_empty() { ccfgs.push(gen_ccfg(&mut r, true)); acts.insert(0, Act::Start(0, vec![])); }
         let kind = if meta_mount { "d6-mount-csv-meta" } else if meta_bp { "d6-buildpack-csv-meta" } else { "random" };
-        push(assemble(fixture, bcfgs, ccfgs, Tree { cfg: 0, acts }, kind));
+        // what the stand-in tools print (container id, `docker port` text, pack/docker stdout) and the status an expected-failure
+        // `pack build` exits with rotate through three sets; no configuration may depend on them
+        let mut b = assemble(fixture, bcfgs, ccfgs, Tree { cfg: 0, acts }, kind);
+        b.fields[4] = format!("-@{}", i % 3);
+        b.tags.push((s("outputs"), (i % 3).to_string()));
+        push(b);
     }
 }
 
